@@ -93,6 +93,11 @@ PROPS["C19"] = {
 		_pbf("c19_pbf_string_3", 3, "read_pbf_string"), _pbf("c19_pbf_string_11", 11, "read_pbf_string", "thorough"),
 		_pbf("c19_pbf_packed_4", 4, "read_pbf_packed_uint32"), _pbf("c19_pbf_packed_11", 11, "read_pbf_packed_uint32", "thorough"),
 		_pbf("c19_pbf_sub_reader_11", 11, "get_pbf_sub_reader"),
+	] + [
+		H(f"c19_pbf_{k}_overlong", CORE, c19c, funcs=[f"ValueReader::{fn}", "ValueReaderSlice::get_sub_reader", "ValueReader::read_varint"],
+			bounds="every 11-byte string whose leading varint announces a length > 11 (up to u64::MAX)", sample=f"[u8; 11] symbolic, length decoded by a reference varint reader -> {fn}", stubs=[MON], timeout=900)
+		for k, fn in [("packed", "read_pbf_packed_uint32"), ("blob", "read_pbf_blob"), ("string", "read_pbf_string"), ("sub_reader", "get_pbf_sub_reader")]
+	] + [
 		H("c19_sub_reader_any_length", CORE, c19c, funcs=["ValueReaderSlice::get_sub_reader", "ValueReader::read_blob", "ValueReader::read_string"],
 			bounds="8-byte buffer, any position 0..8, any announced length (u64)", sample="position, length: u64 symbolic", stubs=[MON]),
 	],
@@ -154,6 +159,7 @@ PROPS["C19"]["harnesses"] += [
 	H("c19_entries_v3_count2_8", CONT, f"{PT}::entries_v3::kani_harness", funcs=["EntriesV3::from_blob"], bounds="shape: count byte = 2, then every 8-byte body", sample="[2, b1..b8]", tier="thorough", timeout=1800),
 	H("c19_tile_id_to_coord_any", CONT, f"{PT}::tile_id::kani_harness", funcs=["tile_id_to_coord"], bounds="every u64 id", sample="tile id: u64"),
 	H("c19_coord_to_tile_id_bad_zoom", CONT, f"{PT}::tile_id::kani_harness", funcs=["coord_to_tile_id"], bounds="every x, y: u32, z >= 32", sample="x, y, z"),
+	H("c19_tile_id_to_coord_too_large", CONT, f"{PT}::tile_id::kani_harness", funcs=["tile_id_to_coord"], bounds="every id >= (4^32 - 1) / 3 (beyond the last tile of zoom 31)", sample="id: u64", timeout=900),
 ]
 
 PROPS["C01"] = {
@@ -269,6 +275,8 @@ PROPS["C11"] = {
 	] + [
 		H("c11_value_read_kinds", GEO, c11, funcs=["<GeoValue as GeoValuePBF>::read"], bounds="one Value message field: every (field number u32, wire type u8) and every primitive payload (u64 varint, i64 zigzag, f32/f64 bit pattern); primitive reads answered by a scripted ValueReader", sample="(field, wire), payloads", stubs=[MON]),
 		H("c11_value_read_empty", GEO, c11, funcs=["<GeoValue as GeoValuePBF>::read"], bounds="empty Value message", sample="-", stubs=[MON]),
+		H("c11_filter_map_order_3", GEO, c11, funcs=["VectorTileLayer::filter_map_properties", "PropertyManager::from_iter"], bounds="layer of 3 features without tags, symbolic ids (Option<u64>), symbolic keep/remove mask applied in call order", sample="ids, mask", stubs=[MON, "HashMap model"]),
+		H("c11_filter_map_order_4", GEO, c11, funcs=["VectorTileLayer::filter_map_properties", "PropertyManager::from_iter"], bounds="layer of 4 features without tags, symbolic ids, symbolic mask", sample="ids, mask", stubs=[MON, "HashMap model"], tier="thorough"),
 	] + [
 		H(f"c11_value_write_{k}", GEO, c11, funcs=["<GeoValue as GeoValuePBF>::to_blob", "ValueWriter::write_pbf_key", "ValueWriter::write_varint", "ValueWriter::write_svarint"], bounds=b + "; bytes decoded by a reference protobuf reader in the harness", sample="value payload symbolic", stubs=[MON])
 		for k, b in [("uint", "every u64"), ("int", "every i64"), ("bool", "both"), ("float", "every f32 bit pattern"), ("double", "every f64 bit pattern")]
@@ -362,6 +370,10 @@ PROPS["C09"] = {
 		H("c15_h11_pyramid_contains", CORE, "verif_kani::c15pyr", funcs=["TileBBoxPyramid::contains_coord"], bounds=ALL_LEVELS + "; z any u8", sample=PYR + "; coordinate"),
 		H("c15_h11_pyramid_intersect", CORE, "verif_kani::c15pyr", funcs=["TileBBoxPyramid::intersect"], bounds=ALL_LEVELS, sample="two " + PYR),
 		H("c15_h11_pyramid_intersect_gapped", CORE, "verif_kani::c15pyr", funcs=["TileBBoxPyramid::intersect"], bounds=ALL_LEVELS + "; second operand concrete, populated at levels 2, 5, 31 only", sample=PYR, timeout=900),
+	] + [
+		H(f"c09_intersect_geo_levels{sfx}", CORE, "verif_kani::c15pyr", funcs=["TileBBoxPyramid::intersect_geo_bbox", "TileBBox::intersect_bbox"], bounds=ALL_LEVELS + "; " + shape + "; TileBBox::from_geo replaced by a fixed non-empty box per level (from_geo itself: geo harnesses)", sample=PYR, stubs=[POW, "TileBBox::from_geo -> fixed box per level"], timeout=900)
+		for sfx, shape in [("", "all 32 levels symbolic"), ("_from3", "levels 0..=2 concretely empty"), ("_gap4", "level 4 concretely empty")]
+	] + [
 		H("c09_intersect_pyramid", CORE, "verif_kani::c15pyr", funcs=["TileBBox::intersect_pyramid"], bounds=ALL_LEVELS, sample=PYR + "; box", stubs=[POW]),
 	] + [
 		H(f"c15_h12_geo_x_z{z}", CORE, c15g, funcs=["TileBBox::from_geo"], bounds=f"zoom {z}: a valid geographic box always maps to a tile box (no error for the filter to unwrap)", sample="see C15", stubs=[LIBM, POW])
@@ -482,7 +494,7 @@ PROPS["C02"]["harnesses"] = [h for h in PROPS["C02"]["harnesses"] if h.name != "
 # of reach for CBMC; what is decided is the coordinate-transformed stream of the converting reader against its lookups (Engine B)
 def _c02_extra(prop, tier):
 	import engine_b
-	return engine_b.run_c06_transform(prop, tier, kinds=("lookup", "stream_coord", "stream_box"))
+	return engine_b.run_c06_transform(prop, tier, kinds=("stream_vs_lookup", "lookup", "stream_coord", "stream_box"))
 
 
 PROPS["C02"]["extra"] = _c02_extra
